@@ -106,6 +106,16 @@ def conversions(tier):
             for x in orders:
                 for y in orders:
                     out.append(("%s->%s N=%d %s" % (x.layers[0], y.layers[0], N, T), x, y))
+    # coordinate scalars other than size_t: the layouts' extents type must not depend on the coordinate scalar
+    for S in ("unsigned", "int"):
+        for N in ((2, 3) if tier == "quick" else (1, 2, 3, 4)):
+            a = U.p_array("float", 3 if N != 3 else 2)
+            orders = [U.l_strided(a, S, N), U.l_morton(a, S, N, True), U.l_morton(a, S, N, False)]
+            if N == 2:
+                orders.append(U.l_hilbert(a, S))
+            for x in orders:
+                for y in orders:
+                    out.append(("%s->%s N=%d float over %s coordinates" % (x.layers[0], y.layers[0], N, S), x, y))
     a = U.p_array("float", 3)
     layouts = [U.l_strided(a, "std::size_t", 3), U.l_morton(a, "std::size_t", 3, True), U.l_morton(a, "std::size_t", 3, False)]
     interps = [lambda b: U.l_nearest(b, "float"), lambda b: U.l_linear(b, "float")]
